@@ -396,6 +396,65 @@ func c20Special(chk *fw.Check) int {
 				chk.Violation("C20|cycle-"+res.Verdict.String()+"|"+sig+" cleanup-during-refresh", firstLines(res.Detail, 5), nil)
 			}
 		}
+		// (1b) the same during the very first load of a distribution point in fetch_background (the load is staged without
+		// the entry lock; when it comes to putting the list in place the repository is closed)
+		{
+			n++
+			sig := fmt.Sprintf("backend=%s cleanup-during-first-background-load", be(disk))
+			res := seqWorld(func() {
+				dir := FreshDir("c20j")
+				defer os.RemoveAll(dir)
+				net := world.NewNet()
+				o := CWOpt{Disk: disk, SigMode: config.SignatureValidationModeVerify, Dir: dir, Net: net, Background: true, Interval: "10m"}
+				w := NewCW(o)
+				if err := w.Provision(); err != nil {
+					chk.Violation("C20|cycle-provision-fails|"+sig, err.Error(), nil)
+					return
+				}
+				vsched.Drain()
+				cleaned := false
+				net.Routes[urlA] = &world.Behaviour{Label: "v1-cleanup-meanwhile", Fn: func(req *http.Request, body []byte) (int, []byte, error) {
+					if !cleaned {
+						cleaned = true
+						if err := w.Chk.Cleanup(); err != nil {
+							chk.Violation("C20|cleanup-error|"+sig, err.Error(), nil)
+						}
+					}
+					return 200, v1, nil
+				}}
+				leaf := world.Leaf(p.CA, bi(901), []string{urlA}, nil)
+				w.Lookup(leaf, world.Chain(leaf, p.CA, p.Root))
+				vsched.Drain()
+				if !cleaned {
+					chk.Violation("C20|harness|no-background-load-started|"+sig, "the handshake did not start a download", nil)
+					return
+				}
+				if live, sites := vsched.Live(); live > 0 {
+					chk.Violation("C20|background-activity-after-cleanup", fmt.Sprintf("%s: %d goroutine(s) still alive: %v", sig, live, sites), nil)
+				}
+				if open := vleveldb.OpenPaths(); len(open) > 0 {
+					chk.Violation("C20|database-handle-open-after-cleanup|"+sig, fmt.Sprintf("a first load which was downloading when Cleanup ran left %d database handle(s) open: %v", len(open), open), nil)
+				}
+				if _, tmps, other := ListDir(dir); len(tmps) > 0 || len(other) > 0 {
+					chk.Violation("C20|residue-after-cleanup|"+sig, fmt.Sprintf("work_dir holds %v %v", tmps, other), nil)
+				}
+				if net.Unclosed > 0 {
+					chk.Violation("C20|response-body-never-closed|"+sig, fmt.Sprintf("%d answer(s) never closed", net.Unclosed), nil)
+				}
+				net.Serve(urlA, "v1", v1)
+				w2 := NewCW(o)
+				if err := w2.Provision(); err != nil {
+					chk.Violation("C20|cycle-provision-fails|"+sig, "Provision on the same work_dir afterwards: "+err.Error(), nil)
+					return
+				}
+				vsched.Drain()
+				w2.Chk.Cleanup()
+				vsched.Drain()
+			})
+			if res.Verdict != vsched.OK {
+				chk.Violation("C20|cycle-"+res.Verdict.String()+"|"+sig, firstLines(res.Detail, 5), nil)
+			}
+		}
 		// (3) an entry which never got loaded (its distribution point serves garbage / is down / a fetch is still pending in
 		// fetch_background) is released by Cleanup like any other
 		for _, kind := range []string{"garbage", "down", "background-pending", "bad-signature", "unknown-signer", "cut-off-after-the-entries", "bad-signature-in-the-background", "http-503", "http-404"} {
